@@ -71,6 +71,91 @@ fn run(name: &str) -> String {
                 }
             }
         }
+        "hll4_token_without_aux" => {
+            // an Hll4 image whose nibble is the aux token although no aux entry covers the slot: accepted, and a later update of
+            // that slot with a larger value hits `expect("aux_map should be initialized ...")`
+            let mut s = HllSketch::new(4, HllType::Hll4);
+            for i in 0..40 { s.update(i); }
+            let mut b = s.serialize();
+            let auxc = u32::from_le_bytes([b[36], b[37], b[38], b[39]]);
+            let cur_min = b[6];
+            b[45] |= 0x0f; // slot 10 := AUX_TOKEN
+            // an item whose coupon addresses slot 10 with a value above cur_min + 15 (coupon read from a one-item list image)
+            let mut item = None;
+            for i in 1_000u64..40_000_000 {
+                let mut one = HllSketch::new(4, HllType::Hll4);
+                one.update(i);
+                let ob = one.serialize();
+                let c = u32::from_le_bytes([ob[8], ob[9], ob[10], ob[11]]);
+                if (c & 15) == 10 && (c >> 26) as u8 > cur_min + 15 { item = Some((i, c)); break; }
+            }
+            match HllSketch::deserialize(&b) {
+                Err(e) => format!("rejected: {e}"),
+                Ok(mut d) => {
+                    let est = d.estimate();
+                    let (i, c) = item.expect("no item found");
+                    d.update(i);
+                    format!("accepted (aux_count {auxc}, cur_min {cur_min}); item {i} coupon {c:#x}; estimate before {est} after {}", d.estimate())
+                }
+            }
+        }
+        "hll4_cur_min_250" => {
+            // cur_min is the raw state byte of the image: 250 + nibble overflows u8 when the registers are read back
+            let mut s = HllSketch::new(4, HllType::Hll4);
+            for i in 0..40 { s.update(i); }
+            let mut b = s.serialize();
+            b[6] = 250;
+            match HllSketch::deserialize(&b) {
+                Err(e) => format!("rejected: {e}"),
+                Ok(d) => {
+                    let mut u = HllUnion::new(4);
+                    u.update(&d);
+                    format!("accepted; union estimate {}", u.estimate())
+                }
+            }
+        }
+        "hll4_aux_below_cur_min" => {
+            // an aux entry whose value is below cur_min: the next cur_min shift computes value - new_cur_min in u8
+            let mut s = HllSketch::new(4, HllType::Hll4);
+            for i in 0..4000 { s.update(i); }
+            let mut b = s.serialize();
+            let cur_min = b[6];
+            b[45] |= 0x0f; // slot 10 := AUX_TOKEN
+            b[36] = 1; b[37] = 0; b[38] = 0; b[39] = 0; // aux_count = 1
+            b.truncate(40 + 8);
+            b.extend_from_slice(&(10u32 | (1u32 << 26)).to_le_bytes()); // slot 10, value 1
+            match HllSketch::deserialize(&b) {
+                Err(e) => format!("rejected: {e}"),
+                Ok(mut d) => {
+                    for i in 0..3_000_000u64 { d.update(i); }
+                    format!("accepted (cur_min {cur_min}); estimate after {}", d.estimate())
+                }
+            }
+        }
+        "hll4_updatable_aux_table" => {
+            // the same Hll4 state in the two forms Java/C++ emit: compact (aux pairs back to back, COMPACT flag) and updatable
+            // (the whole aux table of 2^lg_arr ints with empty cells, lg_arr in byte 4)
+            let mut s = HllSketch::new(4, HllType::Hll4);
+            for i in 0..40 { s.update(i); }
+            let mut base = s.serialize();
+            base.truncate(40 + 8);
+            base[45] |= 0x0f; // slot 10 := AUX_TOKEN
+            base[41] |= 0xf0; // slot 3 := AUX_TOKEN
+            base[36] = 2; base[37] = 0; base[38] = 0; base[39] = 0; // aux_count = 2
+            let (c1, c2) = (10u32 | (20u32 << 26), 3u32 | (17u32 << 26));
+            let mut compact = base.clone();
+            compact[5] |= 8;
+            compact.extend_from_slice(&c1.to_le_bytes());
+            compact.extend_from_slice(&c2.to_le_bytes());
+            let mut updatable = base.clone();
+            updatable[4] = 2;
+            for c in [0u32, c1, 0u32, c2] { updatable.extend_from_slice(&c.to_le_bytes()); }
+            let show = |b: &[u8]| match HllSketch::deserialize(b) {
+                Err(e) => format!("rejected ({e})"),
+                Ok(d) => { let mut u = HllUnion::new(4); u.update(&d); format!("{:?}", &u.to_sketch(HllType::Hll8).serialize()[40..]) }
+            };
+            format!("compact -> {} | updatable -> {}", show(&compact), show(&updatable))
+        }
         "hll4_aux_dup" => {
             let mut s = HllSketch::new(4, HllType::Hll4);
             for i in 0..200000 { s.update(i); }
